@@ -102,7 +102,8 @@ def path_trees(eng, acc, task):
     fails = []
     try:
         g = OpGraph.from_optrees(trees, L, IDENT)
-    except (AssertionError, ValueError, IndexError, KeyError, TypeError, RuntimeError) as e:
+    except Exception as e:
+        reraise_internal(e)
         import traceback
         ln = traceback.extract_tb(e.__traceback__)[-1].lineno
         candidate(eng, acc, task, 'optrees', f'optrees:raises:{type(e).__name__}@{ln}', repr(e), inputs)
@@ -231,7 +232,8 @@ def path_aut(eng, acc, task):
         if not aut.is_consistent():
             raise runner.HarnessError('generated automaton inconsistent')
         g = OpGraph.from_automaton(aut, L)
-    except (AssertionError, ValueError, IndexError, KeyError, TypeError, RuntimeError) as e:
+    except Exception as e:
+        reraise_internal(e)
         if not ref:
             eng.mark('aut_no_path_rejected')      # no automaton path of this length: outside the property
             acc.inc('no_path_inputs')
